@@ -162,13 +162,13 @@ pub fn block_history(scn: &Scn, ctx: &mut Ctx, model: &dyn Fn(&Scn, &[u8]) -> (V
     };
     let g = obj.bs(); // data granularity (1 for CFB-8)
     let units: usize = scn.ops.iter().filter(|o| o.k == "blocks").map(|o| o.n as usize).sum();
-    let tailbytes: usize = scn.ops.iter().filter(|o| o.k == "async").map(|o| o.n as usize).sum();
+    let tailbytes: usize = scn.ops.iter().filter(|o| o.k == "async" || o.k == "padded").map(|o| o.n as usize).sum();
     if units > 4096 || tailbytes > 65536 {
         invalid!("too long");
     }
-    if let Some(i) = scn.ops.iter().position(|o| o.k == "async") {
+    if let Some(i) = scn.ops.iter().position(|o| o.k == "async" || o.k == "padded") {
         if i + 1 != scn.ops.len() {
-            invalid!("async must be the last operation");
+            invalid!("a consuming one-shot must be the last operation");
         }
     }
     let mut input = scn.bytes(0, units * g + tailbytes);
@@ -186,7 +186,10 @@ pub fn block_history(scn: &Scn, ctx: &mut Ctx, model: &dyn Fn(&Scn, &[u8]) -> (V
     } else if scn.mode.ends_with("dec") {
         ctx.probe("dishonest_ciphertext");
     }
-    let (want, _) = model(scn, &input);
+    // the model runs over the whole blocks (and an async tail); a closing padded message is
+    // modelled separately, after padding
+    let padded_bytes: usize = scn.ops.iter().filter(|o| o.k == "padded").map(|o| o.n as usize).sum();
+    let (want, _) = model(scn, &input[..input.len() - padded_bytes]);
     sig_base(ctx, scn);
     ctx.probe_if(scn.bs == 1, "bs1");
     ctx.probe_if(scn.bs == 255, "bs255");
@@ -246,6 +249,41 @@ pub fn block_history(scn: &Scn, ctx: &mut Ctx, model: &dyn Fn(&Scn, &[u8]) -> (V
                 drop(obj);
                 obj = c;
                 ctx.probe("clone");
+            }
+            "padded" => {
+                // closing padded one-shot of an encryptor: the mode's recurrence over the padded message
+                if !obj.is_enc() || g != scn.bs {
+                    invalid!("padded conformance is checked on block encryptors");
+                }
+                let n = op.n as usize;
+                let pad = op.ty % 5;
+                let mut kind = op.via % 3;
+                let msg = input[done..done + n].to_vec();
+                let padded = crate::model::pad(pad, g, &msg);
+                if kind == 2 && padded.is_none() {
+                    kind = 1; // encrypt_padded_vec::<NoPadding> on a partial block: recorded finding KF-2 (C13)
+                }
+                ctx.sig.u((kind as u64) << 16 | (pad as u64) << 8 | ((n % g != 0) as u64) << 4 | (n / g).min(3) as u64);
+                ctx.probe("padded_one_shot");
+                let mut out = scn.dirt(done, n + g + 1);
+                let r = obj.finish(kind, pad, &msg, &mut out);
+                match (padded, r) {
+                    (None, Err(())) => {}
+                    (None, Ok(l)) => violation!("padded", "op {}: NoPadding accepted a {}-byte message (block size {}) and returned {} bytes", i, n, g, l),
+                    (Some(p), Ok(l)) => {
+                        // chaining value before the one-shot: the model's state after `done` bytes
+                        let (_, chain) = model(scn, &input[..done]);
+                        let mut s2 = scn.clone();
+                        s2.iv = chain;
+                        let (want, _) = model(&s2, &p);
+                        if l != want.len() || out[..l] != want[..] {
+                            violation!("padded", "op {}: encrypt_padded (form {}, {}) of {} bytes after {} blocks: {} bytes returned, expected the recurrence over the padded message ({} bytes); first difference at byte {}", i, kind, crate::obj::PADS[pad as usize], n, done / g, l, want.len(), first_diff(&out[..l.min(want.len())], &want));
+                        }
+                    }
+                    (Some(p), Err(())) => violation!("padded", "op {}: encrypt_padded (form {}, {}) of {} bytes failed although {} output bytes were available for {} padded bytes", i, kind, crate::obj::PADS[pad as usize], n, n + g + 1, p.len()),
+                }
+                ctx.nontrivial = true;
+                return Verdict::Ok;
             }
             "async" => {
                 if !obj.has_async() {
